@@ -20,6 +20,8 @@ import (
 	"runtime"
 	"sort"
 	"strings"
+
+	"github.com/spf13/afero"
 	"sync"
 	"time"
 )
@@ -372,6 +374,7 @@ func runC03(c *Ctx) {
 		return
 	}
 	locksTie(c)
+	singleCallSpellings(c)
 	tLocks := time.Since(t0)
 	nPair := 200
 	if !quick {
@@ -476,4 +479,52 @@ func replayC03(c *Ctx) {
 			writeFindings(c, cs, r, "found:")
 		}
 	}
+}
+
+// One call, one goroutine, names spelled in different ways for the same directory (absolute and
+// relative, "." and ".." elements, doubled separators): a call that takes a directory's mutex
+// twice never returns — "no deadlock" holds for a single caller as well (oracle only).
+func singleCallSpellings(c *Ctx) {
+	spell := func(p string) []string {
+		return []string{p, strings.TrimPrefix(p, "/"), "/." + p, "/" + p, p + "/", "/d/.." + p, "." + p}
+	}
+	n := 0
+	try := func(what string, setup func(fs afero.Fs), call func(fs afero.Fs)) {
+		n++
+		c.Count("single-call:" + strings.SplitN(what, "(", 2)[0])
+		fs := afero.NewMemMapFs()
+		fs.MkdirAll("/d/e", 0o755)
+		setup(fs)
+		done := make(chan struct{})
+		go func() {
+			defer close(done)
+			defer func() { recover() }()
+			call(fs)
+		}()
+		select {
+		case <-done:
+		case <-time.After(3 * time.Second):
+			c.Oracle("FAIL sc%d deadlock:single-call:%s %s by one goroutine on a fresh MemMapFs did not return within 3 s", n, strings.SplitN(what, "(", 2)[0], what)
+		}
+	}
+	for _, a := range spell("/a") {
+		for _, b := range spell("/b") {
+			a, b := a, b
+			try(fmt.Sprintf("Rename(%q, %q)", a, b), func(fs afero.Fs) { afero.WriteFile(fs, "/a", []byte("x"), 0o644) }, func(fs afero.Fs) { fs.Rename(a, b) })
+		}
+		for _, b := range spell("/d/b") {
+			a, b := a, b
+			try(fmt.Sprintf("Rename(%q, %q)", a, b), func(fs afero.Fs) { afero.WriteFile(fs, "/a", []byte("x"), 0o644) }, func(fs afero.Fs) { fs.Rename(a, b) })
+			try(fmt.Sprintf("Rename(%q, %q)", b, a), func(fs afero.Fs) { afero.WriteFile(fs, "/d/b", []byte("x"), 0o644) }, func(fs afero.Fs) { fs.Rename(b, a) })
+		}
+		a := a
+		try(fmt.Sprintf("Create+Remove(%q)", a), func(fs afero.Fs) {}, func(fs afero.Fs) {
+			if f, err := fs.Create(a); err == nil {
+				f.Close()
+			}
+			fs.Remove(a)
+		})
+		try(fmt.Sprintf("Mkdir+RemoveAll(%q)", a), func(fs afero.Fs) {}, func(fs afero.Fs) { fs.Mkdir(a, 0o755); fs.RemoveAll(a) })
+	}
+	c.Extra["single_call_spellings"] = fmt.Sprintf("%d single calls (Rename, Create+Remove, Mkdir+RemoveAll) over 7 spellings of each name, each must return within 3 s (oracle only)", n)
 }
